@@ -378,7 +378,7 @@ pub fn case(s2n_client: bool) -> BoxedStrategy<Case> {
     )
         .prop_map(move |(seed, mut s2n, s2n_retry, rsa_cert, q, streams, net, cids, key_update_after)| {
             s2n.limits.max_active_cids = cids;
-            normalise(Case { seed, s2n_client, s2n, s2n_retry, rsa_cert, q, conn: ConnScript { streams, close_code: Some(0), datagrams: vec![] }, net, key_update_after })
+            normalise(Case { seed, s2n_client, s2n, s2n_retry, rsa_cert, q, conn: ConnScript { streams, close_code: Some(0), datagrams: vec![], server_close: None }, net, key_update_after })
         })
         .boxed()
 }
